@@ -7,10 +7,10 @@ from .join import Joiner, join
 from .state import State, SymTab
 from .values import BOT, Arr, Bot, BoxU, Delta, Enum, Fn, FnPtr, Iter, Opaque, Ref, Scalar, Seq, Struct, Val, val_syms
 
-sys.setrecursionlimit(10000)
+sys.setrecursionlimit(40000)
 
 ORDERING = {"Less": -1, "Equal": 0, "Greater": 1}
-MAX_DEPTH = 14
+MAX_DEPTH = 40  # crate call chains are ~12 deep; helper extraction adds levels (recursion is refused separately)
 MAX_VISITS = 40
 
 
